@@ -165,7 +165,7 @@ def scenario(draw, ensembles=ENSEMBLES, calc_styles=("caching",), constraints=Tr
             cons = ()
     calc_style = draw(st.sampled_from(list(calc_styles)))
     adesc = draw(S.atoms_desc(min_atoms=min_atoms, max_atoms=max_atoms, extra_arrays=extra_arrays, constraints=cons,
-                              species=["Cu", "H", "O"] if calc_style == "emt" else None,
+                              species=["Cu", "H", "O"] if calc_style == "emt" else None, separated=calc_style in ("emt", "lj"),
                               pbc_choices=((True, True, True),) if ens in ("Isobaric", "Isotension", "GrandCanonical") else ((True, True, True), (False, False, False))))
     n = len(adesc["symbols"])
     scn = {"ensemble": ens, "atoms": adesc, "seed": draw(st.integers(1, 2 ** 31)), "calc": calc_style,
